@@ -6,7 +6,8 @@ import random
 from core import vloop
 from e2e import common, fsck as fsckmod, run_e2e, runner, scenario
 
-EXPECTED = []
+EXPECTED = ["C03_publish_prefix", "C03_publish_final", "C03_no_inplace_write", "C03_download_no_inplace",
+            "C03_pool_untouched"]
 LEVEL = "proof"
 RULE = ("history = fault-free mirror of V1, then a run against V2 = evolve(V1) under a fault-plan class (none, transient, "
         "persistent-required) and a PRNG schedule; at EVERY filesystem mutation the real code attempts (audit hook: open-for-"
@@ -129,6 +130,7 @@ def run_one(chk, sseed, cls, chunk_level=False):
                                pre_run=(lambda apt, cfg: install_chunk_hook(mon)) if chunk_level else None)
         mon.snapshot(len(res2.trace.events), "end")
         replay = {"scenario_seed": sseed, "class": cls, "plan": plan, "lines": w.lines, "chunk_level": chunk_level}
+        common.correspondence(chk, res2, replay, control=True, publish=True)
         for sig, msg in mon.judge(res2.exit == 0):
             chk.violation(sig, replay, msg)
         newv = view_of(os.path.join(runner.mirror_dir(w.sb, url), "dists"))
